@@ -191,9 +191,9 @@ pub fn kitchen_xsd() -> SchemaSet {
             ],
         }),
         attrs: vec![
-            Attr { name: "id".into(), ty: TypeRef::b("string"), required: true },
-            Attr { name: "rank".into(), ty: TypeRef::b("unsignedByte"), required: false },
-            Attr { name: "code".into(), ty: TypeRef::n(NS_A, "Code"), required: false },
+            Attr { name: "id".into(), ty: TypeRef::b("string"), required: true, value_constraint: None },
+            Attr { name: "rank".into(), ty: TypeRef::b("unsignedByte"), required: false, value_constraint: None },
+            Attr { name: "code".into(), ty: TypeRef::n(NS_A, "Code"), required: false, value_constraint: None },
         ],
     }));
     a.comps.push(Comp::Complex(ComplexType {
@@ -202,7 +202,7 @@ pub fn kitchen_xsd() -> SchemaSet {
         xmlns: vec![],
         base: Some(QName::new(NS_A, "Documented")),
         seq: Some(Seq::of(vec![el("Extra", TypeRef::b("double")), el_occ("ExtraB", TypeRef::n(NS_B, "LeafB"), 0, Max::N(1))])),
-        attrs: vec![Attr { name: "extraAttr".into(), ty: TypeRef::b("int"), required: false }],
+        attrs: vec![Attr { name: "extraAttr".into(), ty: TypeRef::b("int"), required: false, value_constraint: None }],
     }));
     a.comps.push(Comp::Simple(SimpleType {
         name: "Ranged".into(),
@@ -243,7 +243,7 @@ pub fn kitchen_xsd() -> SchemaSet {
         xmlns: vec![],
         kind: GlobalKind::Anonymous {
             seq: Some(Seq::of(vec![el("Doc", TypeRef::n(NS_A, "Documented")), Particle::Ref(ElemRef { target: QName::new(NS_A, "TypedGlobal"), min: 0, max: Max::N(1) })])),
-            attrs: vec![Attr { name: "version".into(), ty: TypeRef::b("string"), required: false }],
+            attrs: vec![Attr { name: "version".into(), ty: TypeRef::b("string"), required: false, value_constraint: None }],
         },
     }));
     a.comps.push(typed_element("TypedGlobal", TypeRef::n(NS_A, "Leaf")));
@@ -255,7 +255,7 @@ pub fn kitchen_xsd() -> SchemaSet {
         xmlns: vec![],
         base: None,
         seq: None,
-        attrs: vec![Attr { name: "flag".into(), ty: TypeRef::b("boolean"), required: true }],
+        attrs: vec![Attr { name: "flag".into(), ty: TypeRef::b("boolean"), required: true, value_constraint: None }],
     }));
     s
 }
@@ -274,7 +274,7 @@ pub fn kitchen_wsdl() -> SchemaSet {
             xmlns: vec![],
             base: None,
             seq: Some(Seq::of(vec![el("Label", TypeRef::b("string")), el_occ("Weight", TypeRef::n(NS_W, "Weight"), 0, Max::N(1))])),
-            attrs: vec![Attr { name: "id".into(), ty: TypeRef::b("string"), required: true }],
+            attrs: vec![Attr { name: "id".into(), ty: TypeRef::b("string"), required: true, value_constraint: None }],
         }));
         w.schema.comps.push(Comp::Simple(SimpleType {
             name: "Weight".into(),
